@@ -283,6 +283,18 @@ func (x *Exec) atLoopHead(st *State, f *Frame, li *LoopInfo) bool {
 		}
 	}
 	x.havocLoop(st, f, li)
+	// built-in invariant of range-over-slice loops: the hidden index starts at -1 and only grows
+	for a, cell := range f.cellsByA {
+		if a.Comment == "rangeindex" {
+			for _, in := range li.head.Instrs {
+				if s, ok := in.(*ssa.Store); ok && s.Addr == a {
+					if t, ok := st.cells[cell].(*Term); ok {
+						st.Assume(Le(IntLit(-1), t))
+					}
+				}
+			}
+		}
+	}
 	entry := &LoopEntry{}
 	if spec != nil {
 		ctx2 := x.newSpecCtx(st, f, f.fn)
